@@ -9,7 +9,7 @@ namespace Driver.Load
         | ["dict",[[key, task|null]]] | ["callable"] | ["object"]
     T = {"name","task_dep","wild_dep","setup","calc_dep","targets","file_dep","subtask_of":s|null,"has_subtask":b}
     answer `{"load":O,"control":O}` with O = {"out":"tasks","tasks":[T]} | {"out":"invalidTask"|"invalidDodo"} |
-    {"out":"crash","exn":"TypeError"|"AttributeError"}, plus "tidy": the decidable hypothesis `Tidy cs` of wellformed_groups_partial; at control level every T also has "pre" (task_dep before the
+    {"out":"crash","exn":"TypeError"|"AttributeError"}, plus "plain_objs": the decidable hypothesis `PlainObjs cs` of the group clause; at control level every T also has "pre" (task_dep before the
     implicit ones) and "implicit". -/
 
 abbrev NM := DoitModel.Load.Name
@@ -93,7 +93,7 @@ def errJ : Err → Json
 def handle (j : Json) : Json :=
   let cmds := jnames j "cmds"
   let cs := (jarr j "creators").map parseCreator
-  let hyp : List (String × Json) := [("tidy", Json.bool (Tidy cs))]
+  let hyp : List (String × Json) := [("plain_objs", Json.bool (PlainObjs cs))]
   match loadTasks cmds cs with
   | .error e => Json.mkObj ([("load", errJ e), ("control", errJ e)] ++ hyp)
   | .ok ts =>
